@@ -939,9 +939,13 @@ def check(run):
         prev = {"objs": [], "atoms": {}}
         prev_bad = set()
         tainted = False
-        tsfs = tsf_map(seq)
+        tsfs = {}                      # timeStepFactor of the live objects, by dump description (default names are reused after a reset)
         nops, live_b = [], {}          # naming model: operations, and the unnamed biases believed alive (name -> (kind index, rank))
         for i, (ev, blk) in enumerate(zip(seq["events"], blocks)):
+            if ev["op"] in ("addcv", "addbias"):
+                tsfs.update(tsf_map({"events": [ev]}))
+            elif ev["op"] == "reset":
+                tsfs = {}
             if ev["op"] == "addbias":
                 bb = ev["bias"]
                 kidx = BIAS_KINDS.index(bb["kind"])
